@@ -375,7 +375,8 @@ pub fn gen_world(r: &mut Rng) -> Vec<Tree> {
                 (r.range(1, 4), r.below(12000), r.below(256))
             }
         };
-        let w: [u32; 31] = [14, 16, 14, 3, 3, 6, 9, 9, 5, 2, 2, 2, 3, 3, 3, 2, 10, 2, 2, 3, 4, 3, 4, 3, 2, 3, 4, 3, 1, 3, 3];
+        // (the replay window edge, case 27, costs 260 sealed datagrams: it is played in focused histories only)
+        let w: [u32; 31] = [14, 16, 14, 3, 3, 6, 9, 9, 5, 2, 2, 2, 3, 3, 3, 2, 10, 2, 2, 3, 4, 3, 4, 3, 2, 3, 4, 0, 2, 3, 2];
         let case = match focus {
             Some(f) if step == 3 || step == 14 => f,
             _ => r.weighted(&w),
